@@ -3,22 +3,22 @@
 import json
 claimed = {
  "C01": ("exploration", "DESIGN.md §4 C01",
-   "Seeded search over schemas x values x content types x benign network schedules on a simulated HTTP link (real net/http codecs, real generated client and server); every call is checked by the delivery oracle (handler-seen request == caller's, caller-seen response == handler's). Sampling, not proof; right level because the property quantifies over programs and inputs jointly and only fails on particular combinations.",
+   "Seeded search over schemas x values x content types x benign network schedules on a simulated HTTP link (real net/http codecs, real generated client and server); every call is checked by the delivery oracle (handler-seen request == caller's, caller-seen response == handler's). The simulated server frames responses as net/http does (chunked transfer encoding beyond 2 KiB), some plans carry 2-20 KB responses, and some put the servers behind a gateway that serves them under a path prefix. Sampling, not proof; right level because the property quantifies over programs and inputs jointly and only fails on particular combinations.",
    "deterministic simulation: seeded schedules + fragmentation over a simulated HTTP link, per-call delivery oracle"),
  "C11": ("fault_enumeration", "DESIGN.md §4 C11",
-   "Fault injection inside in-flight messages (truncate/reset/stall at drawn offsets, dup, drop, write error, mutated bodies under 9 content types, rogue upstream responses, virtual-clock deadlines) plus sweeps that enumerate every truncation and reset offset of the sampled bodies; oracles: never panic/5xx/hang, never dispatch from an incompletely delivered or undecodable body, 400s are well-formed, clients return by their deadline.",
+   "Fault injection inside in-flight messages (truncate/reset/stall at drawn offsets, dup, drop, write error, mutated bodies under 9 content types, rogue upstream responses, virtual-clock deadlines) plus sweeps that enumerate every truncation and reset offset of the sampled bodies; oracles: never panic/5xx/hang, never dispatch from an incompletely delivered or undecodable body, 400s are well-formed, clients return by their deadline. A fourth mode runs the generated TS client (Node 22, lock-step bridge) against rogue peers and response-direction faults: every call settles, the Node process never meets an unhandled rejection or uncaught exception, and success is only reported for a complete 2xx JSON response.",
    "deterministic simulation with fault injection on the simulated link + single-fault offset enumeration"),
  "C15": ("exploration", "DESIGN.md §4 C15",
-   "The generators' nondeterminism sources (map iteration order, clock) are put behind a source-level seam in a scratch build and driven from the seed; outputs of reruns, seamed runs and perturbed request shapes (file order, file-to-generate subsets, dependent files generated in one run or in separate runs, several services per plugin process) are compared byte for byte with the canonical run of the freshly built plugins.",
+   "The generators' nondeterminism sources (map iteration order, clock) are put behind a source-level seam in a scratch build and driven from the seed; outputs of reruns, seamed runs and perturbed request shapes (file order, file-to-generate subsets, dependent files generated in one run or in separate runs, several services per plugin process) are compared byte for byte with the canonical run of the freshly built plugins; identical reruns must also list the files in the same order. Real parallelism inside a plugin (a go statement) is not seamed and is covered by repetition under GOMAXPROCS 1/4/16 only.",
    "seeded map-order / clock seam in a scratch build of the generators + request-shape perturbation, byte comparison"),
  "C17": ("exploration", "DESIGN.md §4 C17",
-   "Seeded interleavings of 2-10 concurrent calls at I/O points and at access probes inserted into a scratch copy of the generated code; the simulated ResponseWriter yields before every write (slow peer), call-option values and message instances are shared between calls, sync.Pool is seamed (LIFO reuse, hand-off = happens-before edge), every generated function starts with a pre-emption point; three oracles: each call equals the same call executed alone (and a well-formed call is never rejected), no unordered conflicting access (vector-clock happens-before detector), client-visible history linearizable (porcupine).",
+   "Seeded interleavings of 2-10 concurrent calls at I/O points and at access probes inserted into a scratch copy of the generated code; the simulated ResponseWriter yields before every write (slow peer), call-option values and message instances are shared between calls, sync.Pool is seamed (LIFO reuse, hand-off = happens-before edge), every generated function starts with a pre-emption point; three oracles: each call equals the same call executed alone (and a well-formed call is never rejected), no unordered conflicting access (vector-clock happens-before detector), client-visible history linearizable (porcupine). A third mode, coldstart, spends one short-lived runner process per route whose first plans put 2-6 well-formed calls on that one route in flight together, so that lazily built process-wide state is met unbuilt by several requests at once.",
    "deterministic simulation: seeded interleavings + solo-run isolation oracle + vector-clock race detection + porcupine"),
  "C02": ("exploration", "DESIGN.md §4 C02",
    "A contract client (built from the published contract, not from generated client code) emits raw requests for every verb x body shape x codec x URL value class over the simulated link into the Go and TS servers; oracle = reference binding model (URL-bound fields from the URL + body fields, or 400 naming the field and no dispatch).",
    "deterministic simulation: contract client over the simulated link, reference binding model as oracle"),
  "C03": ("exploration", "DESIGN.md §4 C03",
-   "Full delivery matrix: three kinds of client (generated Go, generated TS, a client that only knows the emitted OpenAPI document) x two servers (Go, TS) run against each other over the simulated link for every sampled RPC; request lines are compared with each other and with the document, TS route descriptors and parameter placement are cross-checked, exactly one operation per RPC.",
+   "Full delivery matrix: three kinds of client (generated Go, generated TS, a client that only knows the emitted OpenAPI document) x two servers (Go, TS) run against each other over the simulated link for every sampled RPC; request lines are compared with each other and with the document, TS route descriptors and parameter placement are cross-checked, exactly one operation per RPC. A second mode, link-faults, lets the first attempt of a call meet a transport failure and requires every further request the client sends for that call to carry the same request line.",
    "deterministic co-simulation: client x server delivery matrix (Go, TS in Node, OpenAPI-driven) + document cross-check"),
  "C08": ("exploration", "DESIGN.md §4 C08",
    "The generated TS modules run unmodified in Node 22 behind a lock-step bridge on the same simulated link as the Go nodes (routes created once per run, request bodies streamed to the route chunk by chunk as the link delivers them); TS->Go, Go->TS and TS->TS calls are checked by the delivery oracle on the contract JSON form, header helper options and AbortSignal included; module load is boot admission.",
@@ -30,7 +30,7 @@ claimed = {
    "Scripted application-handler and error-hook nodes produce every documented error source; Go, TS and contract clients observe; oracle = the documented table (status, content type mirrors the request, body decodes to the expected message, hook overrides) and the client-side error value. Plans also put the server behind a deadline middleware, register the hook for some services only, let the hook write its body through io.WriteString / io.Copy and send media-type parameters; a second mode runs the Go and TS clients against a peer that answers error statuses with well-formed and damaged bodies.",
    "deterministic simulation: scripted handler/hook nodes, documented error table as oracle, client-side error mapping"),
  "C20": ("exploration", "DESIGN.md §4 C20",
-   "The generated mock implementation backs the generated server; its randomness (rand.Intn, crypto/rand incl. failure) and clock are supplied by the plan through a seam in the scratch copy; repeated and interleaved calls; oracle = no error for valid requests, served and decoded equal in JSON and protobuf, example-bearing fields take a parsed example for every random choice; the mock also runs under the access-probe pass so that unsynchronised state in generated mock code is seen by the vector-clock race detector; building the mock is boot admission.",
+   "The generated mock implementation backs the generated server; its randomness (rand.Intn, crypto/rand incl. failure) and clock are supplied by the plan through a seam in the scratch copy; repeated and interleaved calls; oracle = no error for valid requests, served and decoded equal in JSON and protobuf, example-bearing fields take a parsed example for every random choice; the mock also runs under the access-probe pass so that unsynchronised state in generated mock code is seen by the vector-clock race detector; in some plans every request constructs its own mock inside its handler task; building the mock is boot admission.",
    "deterministic simulation: seam on the generated mock's randomness/clock, repeated interleaved invocations, example-membership oracle"),
 }
 na = {
